@@ -22,3 +22,13 @@ class SyntaxCompilerError(CompilerError):
         self.line = line
         self.column = column
         self.message = msg
+
+
+class ClauseTooLargeError(CompilerError):
+    '''A clause needs more nested blocks than Python can compile.'''
+
+    def __init__(self, filename, msg):
+        self.filename = filename
+        self.line = 0
+        self.column = 0
+        self.message = msg
